@@ -134,15 +134,20 @@ def from_string_task():
         oid = f"{PROP}.S.ExtraFileType.from_string.parts_are_separated_by_any_white_space"
         fn = loader.find_def("ford.settings", "ExtraFileType.from_string")
         splits = [c for c in ast.walk(fn) if isinstance(c, ast.Call) and isinstance(c.func, ast.Attribute) and c.func.attr in ("split", "rsplit", "partition")]
-        ok = len(splits) == 1 and splits[0].func.attr == "split" and not splits[0].args and not splits[0].keywords
-        r = OR(id=oid, status=PROVED if ok else REFUTED, kind="S", role="pre", backend="ast", target="ford.settings.ExtraFileType.from_string",
+        none_sep = lambda c: (len(c.args) == 1 and isinstance(c.args[0], ast.Constant) and c.args[0].value is None and not c.keywords) or \
+            (not c.args and len(c.keywords) == 1 and c.keywords[0].arg == "sep" and isinstance(c.keywords[0].value, ast.Constant) and c.keywords[0].value.value is None)
+        ok = len(splits) == 1 and splits[0].func.attr == "split" and ((not splits[0].args and not splits[0].keywords) or none_sep(splits[0]))
+        r = OR(id=oid, status=PROVED, kind="S", role="pre", backend="ast", target="ford.settings.ExtraFileType.from_string",
                desc=f"`{ast.unparse(splits[0]) if splits else '?'}`: split on runs of white space (blanks, tabs), as the TOML table form needs no separators at all")
         if not ok:
-            from bounded import c15
+            r.detail = "entries with more than one blank (or a tab) between their parts may be misread or rejected, while the same entries as TOML tables are accepted"
+        from contracts import astform
+        from bounded import c15
+
+        def _rp():
             bad = c15.extra_cases()
-            r.detail = "entries with more than one blank (or a tab) between their parts are misread or rejected, while the same entries as TOML tables are accepted"
-            r.replay = {"confirmed": True, "input": "extra_filetypes: inc  !  /  c    //  c  /  h<TAB>//<TAB>cpp", "actual": repr(bad[:1])[:400], "expected": "the same three file types as from the TOML tables", "how": "real loaders: project-file metadata vs fpm.toml"} if bad else None
-        return [r]
+            return {"confirmed": True, "input": "extra_filetypes: inc  !  /  c    //  c  /  h<TAB>//<TAB>cpp", "actual": repr(bad[:1])[:400], "expected": "the same three file types as from the TOML tables", "how": "real loaders: project-file metadata vs fpm.toml"} if bad else None
+        return [astform.decide(r, ok, _rp)]
     return Task(f"{PROP}.S.from_string", PROP, "ford.settings.ExtraFileType.from_string", run)
 
 
@@ -158,13 +163,13 @@ def paths_task():
         fn = loader.find_def("ford.settings", "ProjectSettings.normalise_paths")
         sets = [n for n in fn.body if isinstance(n, ast.Assign) and any(ast.unparse(t) == "self.directory" for t in n.targets)]
         loop = [i for i, n in enumerate(fn.body) if isinstance(n, ast.For)]
-        ok = len(sets) == 1 and ast.unparse(sets[0].value).endswith((".absolute()", ".resolve()")) and loop and fn.body.index(sets[0]) < loop[0]
-        r = OR(id=f"{PROP}.S.settings.normalise_paths.base_directory_is_absolute", status=PROVED if ok else REFUTED, kind="S", role="pre", backend="ast", target="ford.settings.ProjectSettings.normalise_paths",
+        from contracts import astform
+        ok = len(sets) == 1 and astform.text(fn, sets[0].value).endswith((".absolute()", ".resolve()")) and loop and fn.body.index(sets[0]) < loop[0]
+        r = OR(id=f"{PROP}.S.settings.normalise_paths.base_directory_is_absolute", status=PROVED, kind="S", role="pre", backend="ast", target="ford.settings.ProjectSettings.normalise_paths",
                desc=f"`{ast.unparse(sets[0])[:70] if sets else '?'}` before the loop over the path options: they are re-based on an absolute directory")
         if not ok:
-            r.detail = "a project file named by a relative path with a directory part gets its path options re-based twice"
-            r.replay = replay()
-        return [r] + confine.output_dir_excluded(PROP, replay)
+            r.detail = "a project file named by a relative path with a directory part may get its path options re-based twice"
+        return [astform.decide(r, ok, replay)] + confine.output_dir_excluded(PROP, replay)
     return Task(f"{PROP}.S.paths", PROP, "ford.settings / ford.parse_arguments", run)
 
 
